@@ -965,6 +965,10 @@ class Executor:
                     else:
                         return None
                     return r if op in ("Is", "Eq") else (not r)
+            if op in ("Is", "IsNot", "Eq", "NotEq"):
+                for x, y in ((a, b), (b, a)):
+                    if y == ("const", None) and x[0] in ("list", "tuple", "dict", "set", "mkevent", "fstr", "func", "lambda", "kindcls", "partial", "replace"):
+                        return op in ("IsNot", "NotEq")
             if a[0] == "const" and b[0] == "const":
                 try:
                     return _fold_cmp(op, a[1], b[1])
